@@ -25,14 +25,14 @@ def _cells(a):
         if isinstance(x, float) and np.isnan(x):
             out.append('nan')
         elif isinstance(x, float) and np.isinf(x):
-            out.append('inf')
+            out.append('inf' if x > 0 else 'ninf')
         else:
             out.append(int(round(x * 4)) if isinstance(x, float) else int(x))
     return dict(shape=list(a.shape), data=out)
 
 
 def _arr(f):
-    data = [np.nan if x == 'nan' else (np.inf if x == 'inf' else x) for x in f['data']]
+    data = [np.nan if x == 'nan' else (np.inf if x == 'inf' else (-np.inf if x == 'ninf' else x)) for x in f['data']]
     return np.array(data, dtype=f['dtype']).reshape(f['shape'])
 
 
@@ -140,6 +140,7 @@ def model_query(case, impl_res):
             data = [x if isinstance(x, str) else int(round(x * case['rate'])) for x in f['data']]
         else:
             data = [x if isinstance(x, str) else (int(round(x * 4)) if 'float' in f['dtype'] else int(x)) for x in f['data']]
+        data = ['inf' if x == 'ninf' else x for x in data]     # one infinity token in the model: both signs are scrubbed
         files.append([name, dict(shape=f['shape'], data=data)])
     return dict(p=PID, op='load', files=files)
 
@@ -294,7 +295,9 @@ def make_case(rng, i):
     if rng.random() < .7:
         amps = [rng.randrange(0, 20) / 4. for _ in range(ns)]
         if rng.random() < .4:
-            amps[rng.randrange(ns)] = rng.pick(['nan', 'inf'])
+            amps[rng.randrange(ns)] = rng.pick(['nan', 'inf', 'ninf'])
+            if rng.random() < .5:
+                amps[rng.randrange(ns)] = rng.pick(['nan', 'inf', 'ninf'])
             tags.append('nan_in_amplitudes')
         files[N('amplitudes.npy', 'spikes.amps.npy')] = F('float64', v(ns), amps)
     else:
@@ -339,6 +342,13 @@ def make_case(rng, i):
         tags.append('features')
     if rng.random() < .3:
         files['spike_extra.npy'] = F('float64', v(ns), [float(rng.randrange(9)) for _ in range(ns)]); tags.append('extra_attr')
+        if rng.random() < .5:
+            # attribute names with underscores (spike_depth_um, spike_depth_raw) and non-finite cells
+            vals = [float(rng.randrange(9)) for _ in range(ns)]
+            vals[rng.randrange(ns)] = rng.pick(['nan', 'inf', 'ninf', 1.0])
+            files['spike_depth_um.npy'] = F('float64', v(ns), vals)
+            files['spike_depth_raw.npy'] = F('float32', v(ns), [float(rng.randrange(5)) for _ in range(ns)])
+            tags.append('extra_attr_underscore_names')
     if rng.random() < .2:
         files['spike_wrong.npy'] = F('float64', [ns + 1], [0.] * (ns + 1)); tags.append('extra_attr_wrong_length')
     case = dict(p=PID, files=files, rate=rate, ncd=ncd, offset=rng.pick([0, 0, 6]), tags=tags)
